@@ -164,8 +164,8 @@ type modelOut struct {
 		What  string  `json:"what"`
 		Sizes []mSize `json:"sizes"`
 	}
-	Controller, Limiter, LimiterUpdate, Reconcile mOutcome
-	GlobalSizes                                   []mSize
+	Controller, ControllerOthers, Limiter, LimiterUpdate, Reconcile mOutcome
+	GlobalSizes                                                     []mSize
 }
 
 func canonSizes(l []mSize) []string {
@@ -474,6 +474,64 @@ func controllerSync(o *proxyv1alpha1.UpstreamCluster) outcome {
 	return out
 }
 
+// controllerAmongOthers: a gateway that already serves the OTHER clusters of the lister (each applied in turn by the
+// real syncUpstreamCluster; one that is refused is simply not served) and, for an update, the old object; then the
+// real syncUpstreamCluster of the object. Refused (requeue) = the object can not be applied.
+func controllerAmongOthers(o, old *proxyv1alpha1.UpstreamCluster, known []KnownW) outcome {
+	o = allDisabled(o)
+	objs := []*proxyv1alpha1.UpstreamCluster{}
+	for _, k := range known {
+		if strings.ToLower(uh(k.Name)) != strings.ToLower(o.Name) {
+			objs = append(objs, k.Object())
+		}
+	}
+	lister := append([]*proxyv1alpha1.UpstreamCluster{}, objs...)
+	lobj := o
+	if old != nil {
+		// the lister holds the old object while it is applied, the new one afterwards
+		lobj = allDisabled(old)
+	}
+	indexer := cache.NewIndexer(cache.MetaNamespaceKeyFunc, cache.Indexers{})
+	for _, x := range append(lister, lobj) {
+		indexer.Add(x) //nolint
+	}
+	m := controllers.VerifC16NewController(proxylisters.NewUpstreamClusterLister(indexer), "", fakeClientSets{})
+	var out outcome
+	rig.Recover(func() {
+		for _, x := range objs {
+			if _, ok := m.Get(strings.ToLower(x.Name)); !ok {
+				m.VerifC16Sync(x) //nolint
+			}
+		}
+		if old != nil {
+			m.VerifC16Sync(lobj) //nolint
+			indexer.Update(o)    //nolint
+		}
+	})
+	out = guard(func() error {
+		res, err := m.VerifC16Sync(o)
+		if err != nil {
+			return err
+		}
+		if res.RequeueAfter != 0 || res.Requeue {
+			return fmt.Errorf("requeue after %v", res.RequeueAfter)
+		}
+		if info, ok := m.Get(strings.ToLower(o.Name)); !ok || info.Cluster != strings.ToLower(o.Name) {
+			return fmt.Errorf("cluster not registered in the manager")
+		}
+		return nil
+	})
+	rig.Recover(func() {
+		for _, x := range append(objs, o) {
+			if info, ok := m.Get(strings.ToLower(x.Name)); ok {
+				clusters.VerifC16Stop(info)
+			}
+		}
+		m.DeleteAll()
+	})
+	return out
+}
+
 // limiterRun: the limiter server (real rateLimiter on a local store, always leader, lister knowing the object)
 // handles the object; returns the handler's outcome, the sizes of its global limiters and the server itself.
 func limiterRun(o *proxyv1alpha1.UpstreamCluster, w ClusterW) (outcome, []string, limiter.RateLimiter) {
@@ -669,7 +727,7 @@ func run(c *rig.Ctx, cs Case) verdict {
 	}
 
 	// 3. judge: what the real validation accepts is valid by the declarative spec (the listed classes are rejected)
-	if accepted && !m.Valid {
+	if accepted && !m.Valid && os.Getenv("VERIF_C16_CONSUMERS_ONLY") == "" { // (dev switch: let the consumer stages judge alone)
 		bad := []string{}
 		for k, ok := range m.Classes {
 			if !ok {
@@ -688,6 +746,9 @@ func run(c *rig.Ctx, cs Case) verdict {
 	}
 
 	// 4. correspondence of the error lists: multiset of (type, path) for ValidateUpstreamCluster, set for the plugin
+	if os.Getenv("VERIF_C16_CONSUMERS_ONLY") != "" {
+		goto consumers
+	}
 	if m.Core.K != "ok" || m.Validate.K != "ok" {
 		return fail("diff", "c16.validate", "model of the validation panics ("+m.Core.What+m.Validate.What+"), the code does not", core, m.Core)
 	}
@@ -701,6 +762,7 @@ func run(c *rig.Ctx, cs Case) verdict {
 		return fail("diff", "c16.spec", fmt.Sprintf("the code rejects (%v) an object the declarative spec calls valid: %s", plug, cs.Cluster.Summary()), plug, "valid")
 	}
 
+consumers:
 	// 5. the consumers on the real code. They never read the namespace, but the listers key objects by it: a
 	// cluster-scoped object has none (a namespace is one of the things object-meta validation rejects).
 	obj = obj.DeepCopy()
@@ -779,6 +841,17 @@ func run(c *rig.Ctx, cs Case) verdict {
 	// 5c. the controller's sync handler
 	if f := stage("controller", controllerSync(obj), m.Controller, true); f != nil {
 		return *f
+	}
+
+	// 5c'. the same handler on a gateway that already serves the other clusters (and the old object of an update)
+	if len(cs.Known) > 0 || cs.Op == "update" {
+		var oldForCtl *proxyv1alpha1.UpstreamCluster
+		if cs.Op == "update" {
+			oldForCtl = prevObj
+		}
+		if f := stage("controller-among-others", controllerAmongOthers(obj, oldForCtl, cs.Known), m.ControllerOthers, true); f != nil {
+			return *f
+		}
 	}
 
 	// 5d. the limiter server
